@@ -4,6 +4,8 @@ The ``Scheduler`` class makes it easier to nest scheduler objects.
 
 # pylint: disable=w0212
 
+import asyncio
+
 from asynciojobs import PureScheduler
 from asynciojobs import AbstractJob
 
@@ -112,7 +114,16 @@ class Scheduler(PureScheduler, AbstractJob):
             triggers an exception, in which case it bubbles up.
         """
         # run as a pure scheduler, will always return True or False
-        pure = await PureScheduler.co_run(self)
+        try:
+            pure = await PureScheduler.co_run(self)
+        except asyncio.CancelledError:
+            # our enclosing scheduler is cancelling us (it has timed out, or
+            # one of its critical jobs has failed); pass that on to the jobs
+            # that we have started ourselves, and wait for them, so that
+            # nothing keeps on running behind the scenes
+            await self._tidy_tasks(
+                [job._task for job in self.jobs if job._task is not None])
+            raise
         # fine
         if pure is True:
             return pure
